@@ -488,6 +488,9 @@ func init() {
 	reg("bytes.Compare", func(in *Interp, c *Frame, fn *ssa.Function, a []Value) Value {
 		return in.bytesCompare(in.sliceBytes(a[0]), in.sliceBytes(a[1]))
 	})
+	// internal/abi.NoEscape / Escape hide a pointer from escape analysis by xor-ing its bits; identity here
+	reg("internal/abi.NoEscape", func(in *Interp, c *Frame, fn *ssa.Function, a []Value) Value { return a[0] })
+	reg("internal/abi.Escape", func(in *Interp, c *Frame, fn *ssa.Function, a []Value) Value { return a[0] })
 	reg("strings.Compare", func(in *Interp, c *Frame, fn *ssa.Function, a []Value) Value {
 		return in.bytesCompare(in.strBytes(a[0].(Str)), in.strBytes(a[1].(Str)))
 	})
